@@ -133,7 +133,9 @@ def _work(job):
         E.keep_pcs = opts.get("certificate", True)
         E.want_samples = opts.get("samples", 2)
         E.export_every = opts.get("export_every", 0)
-        complete = E.explore(fn, deadline=opts.get("deadline"), max_paths=opts.get("max_paths"))
+        pfx = opts.get("prefix")
+        complete = E.explore(fn, deadline=opts.get("deadline"), max_paths=opts.get("max_paths"), prefix=pfx, frozen=opts.get("frozen", 0), pending_v=opts.get("pending_v", False))
+        out["delegated"] = E.delegated
         cert = None
         if complete and E.keep_pcs and E.paths <= opts.get("cert_max_paths", 5000):
             cert = E.certificate()
@@ -160,6 +162,8 @@ def _work(job):
     except BaseException as e:  # engine error
         out["error"] = "engine error: %r\n%s" % (e, traceback.format_exc(limit=12))
     out["wall"] = time.time() - t0
+    out["t0"] = t0
+    out["pid"] = os.getpid()
     return out
 
 
@@ -241,41 +245,69 @@ def run(prop, tier, seed, argv_opts=None):
 
     seen_h = set()
     jobs = []
+    base = {
+        "deadline": deadline,
+        "samples": 1 if len(cases) > 8 else 2,
+        "certificate": True,
+        "cert_max_paths": 5000,
+        "export_every": 23 if tier == "quick" else 101,
+    }
+    nosplit = bool(os.environ.get("VERIF_NOSPLIT"))
+
+    def path_budget(outstanding):
+        # small budgets while the pool is hungry (fan out quickly), larger ones later
+        if nosplit:
+            return None
+        if outstanding < 2 * nproc:
+            return 1
+        if outstanding < 6 * nproc:
+            return 10
+        return 250
+
     for i, c in enumerate(cases):
-        o = {
-            "deadline": deadline,
-            "samples": 1 if len(cases) > 8 else 2,
-            "certificate": True,
-            "cert_max_paths": 5000,
-            "export_every": 23 if tier == "quick" else 101,
-        }
+        o = dict(base)
         if c["h"] not in seen_h:
             seen_h.add(c["h"])
             o["profile"] = True
             o["twin"] = True
+        o["max_paths"] = path_budget(len(cases))
         jobs.append((prop, i, c, seed, o))
     # heavy cases first
     jobs.sort(key=lambda j: -j[2].get("_w", 1))
+    n_jobs_total = len(jobs)
 
     results = []
     errors = []
     ctx = mp.get_context("fork")
-    pool = ctx.Pool(min(nproc, max(1, len(jobs))), maxtasksperchild=None)
+    pool = ctx.Pool(nproc)
     try:
-        it = pool.imap_unordered(_work, jobs, chunksize=1)
-        for _ in range(len(jobs)):
-            remaining = deadline + 30 - time.time()
-            if remaining <= 0:
+        pending = [pool.apply_async(_work, (j,)) for j in jobs]
+        while pending:
+            if time.time() > deadline + 30:
                 errors.append("watchdog: budget of %d s exceeded" % budget)
                 break
-            try:
-                r = it.next(timeout=remaining)
-            except mp.TimeoutError:
-                errors.append("watchdog: budget of %d s exceeded" % budget)
-                break
-            results.append(r)
-            if os.environ.get("VERIF_VERBOSE"):
-                print("  case %d/%d %s paths=%s wall=%.1f %s" % (len(results), len(jobs), json.dumps({k: v for k, v in r["case"].items() if not k.startswith("_")})[:100], r.get("paths"), r["wall"], r.get("error", "")), file=sys.stderr, flush=True)
+            still = []
+            progressed = False
+            for ar in pending:
+                if not ar.ready():
+                    still.append(ar)
+                    continue
+                progressed = True
+                r = ar.get()
+                results.append(r)
+                if r.get("ok") and r.get("delegated"):
+                    for d in r["delegated"]:
+                        o = dict(base)
+                        o.update(d)
+                        o["samples"] = 1
+                        o["max_paths"] = path_budget(len(pending) + len(still))
+                        n_jobs_total += 1
+                        still.append(pool.apply_async(_work, ((prop, r["idx"], r["case"], seed, o),)))
+                if os.environ.get("VERIF_VERBOSE"):
+                    print("  job %d/%d t0=%.2f pid=%d %s paths=%s wall=%.2f %s%s" % (len(results), n_jobs_total, r.get("t0",0)-t_start, r.get("pid",0), json.dumps({k: v for k, v in r["case"].items() if not k.startswith("_")})[:100], r.get("paths"), r["wall"], "delegated=%d " % len(r["delegated"]) if r.get("delegated") else "", r.get("error", "")), file=sys.stderr, flush=True)
+            pending = still
+            if not progressed:
+                time.sleep(0.02)
     finally:
         pool.terminate()
         pool.join()
@@ -319,8 +351,8 @@ def run(prop, tier, seed, argv_opts=None):
         for v in r["violations"]:
             violations.append({"case": r["case"], **v})
         exported.extend(r.get("exported", []))
-    if len(results) < len(jobs) and not errors:
-        errors.append("only %d of %d cases finished" % (len(results), len(jobs)))
+    if len(results) < n_jobs_total and not errors:
+        errors.append("only %d of %d jobs finished" % (len(results), n_jobs_total))
     for h in seen_h:
         for lab in getattr(hm, "REACH", {}).get(h, []):
             if not reached.get(lab):
@@ -397,7 +429,7 @@ def run(prop, tier, seed, argv_opts=None):
         replay_paths.append((v, rp))
 
     wall = time.time() - t_start
-    exhaustive = not errors and incomplete == 0 and len(results) == len(jobs)
+    exhaustive = not errors and incomplete == 0 and len(results) == n_jobs_total
     ev = {
         "property_id": prop,
         "tier": tier,
@@ -411,7 +443,8 @@ def run(prop, tier, seed, argv_opts=None):
             "exhaustive": exhaustive,
             "explanation": "states = feasible symbolic paths explored to completion (each stands for all assignments satisfying its path condition); transitions = solver-decided branch/value decisions; traces_validated = sampled path models re-run with plain ints on the unlowered modules with identical observations",
             "cases": len(jobs),
-            "cases_finished": len(results),
+            "jobs": n_jobs_total,
+            "jobs_finished": len(results),
             "bounds": bounds,
             "functions_encoded": sorted(functions),
             "solver": "z3 %s" % _z3_version(),
